@@ -123,9 +123,9 @@ def harness(ctx):
         return
 
     if g == "arith_tensor":
-        Tn = ctx.leaf("T", tuple(ref.shape))
-        X = ctx.leaf("X", (n, 2))
-        Y = ctx.leaf("Y", (2, m))
+        Tn = ctx.leaf("argT", tuple(ref.shape))
+        X = ctx.leaf("argX", (n, 2))
+        Y = ctx.leaf("argY", (2, m))
         both("add(op,T)", lambda: torch.add(op, Tn), lambda: op + Tn, lambda: ref + Tn)
         both("add(T,op)", lambda: torch.add(Tn, op), lambda: Tn + op, lambda: Tn + ref)
         both("sub(op,T)", lambda: torch.sub(op, Tn), lambda: op - Tn, lambda: ref - Tn)
@@ -138,12 +138,12 @@ def harness(ctx):
         both("Tensor.add(T,op)", lambda: Tn.add(op), None, lambda: Tn.add(ref))
         both("Tensor.sub(T,op)", lambda: Tn.sub(op), None, lambda: Tn.sub(ref))
         both("Tensor.mul(T,op)", lambda: Tn.mul(op), None, lambda: Tn.mul(ref))
-        v = ctx.leaf("v", (n,))
+        v = ctx.leaf("argv", (n,))
         both("matmul(op,v)", lambda: torch.matmul(op, v), lambda: op @ v, lambda: ref @ v)
         return
 
     if g == "arith_scalar":
-        c0 = ctx.leaf("c0", ())
+        c0 = ctx.leaf("argc0", ())
         both("mul(op,2.5)", lambda: torch.mul(op, 2.5), lambda: op * 2.5, lambda: ref * 2.5)
         both("mul(op,-1.0)", lambda: torch.mul(op, -1.0), lambda: op * -1.0, lambda: ref * -1.0)
         both("mul(op,0.0)", lambda: torch.mul(op, 0.0), lambda: op * 0.0, lambda: ref * 0.0)
